@@ -81,6 +81,10 @@ fn programs(entry: Entry) -> Vec<(&'static str, Vec<Op>)> {
         // a join future that is created but never polled takes nothing: dropped or kept, a later join gets the actor
         v.push(("join_unpolled_dropped_then_join", vec![call(1), Op::JoinPark { slot: 1, polls: 0 }, Op::Drop { slot: 2 }, Op::Stop { slot: 0 }, Op::Join { slot: 1, cancel: None }]));
         v.push(("join_unpolled_kept_then_join", vec![call(1), Op::JoinPark { slot: 1, polls: 0 }, Op::Stop { slot: 0 }, Op::Join { slot: 1, cancel: None }, Op::Join { slot: 2, cancel: None }]));
+        // a client panics (and catches it) while it holds the OwningAddr / a polled join future: the handle is dropped
+        // by the unwinding, the actor is unaffected as long as another handle exists
+        v.push(("owning_dropped_while_panicking", vec![call(1), Op::DropPanicking { slot: 1 }, Op::Sleep(20), Op::Ping { slot: 0, cancel: None }, call(0), Op::Stop { slot: 0 }, Op::Await { slot: 0, by_ref: false }]));
+        v.push(("join_future_dropped_while_panicking", vec![call(1), Op::JoinPark { slot: 1, polls: 1 }, Op::DropPanicking { slot: 2 }, Op::Sleep(20), Op::Ping { slot: 0, cancel: None }, call(0), Op::Stop { slot: 0 }, Op::Join { slot: 1, cancel: None }]));
         // a pending join future, then detach: returns, actor keeps running
         v.push(("join_parked_then_detach", vec![call(1), Op::JoinPark { slot: 1, polls: 1 }, Op::Detach { slot: 1 }, Op::Ping { slot: 3, cancel: None }, Op::Stop { slot: 3 }, Op::Await { slot: 3, by_ref: false }]));
     } else {
